@@ -45,7 +45,7 @@
 (*      n * maxdiff^P * 2^T < 2^29    and    n * maxdiff * 2^S < 2^27      *)
 (* (n * maxdiff >= any of the distances), and `Fits` re-checks it.         *)
 (***************************************************************************)
-EXTENDS Integers, Sequences, FiniteSets
+EXTENDS Integers, Sequences, FiniteSets, TLC
 
 Abs(a) == IF a < 0 THEN -a ELSE a
 Max2(a, b) == IF a >= b THEN a ELSE b
@@ -100,7 +100,9 @@ PwTol(Nt, n, P, prec) ==
     IF prec >= 50 THEN 0
     ELSE LET k == (P + 2) * (n + 8)
              sh == Pow2(prec - 2)
-         IN  1 + k * (Nt \div sh) + (k * (Nt % sh)) \div sh
+             \* k * (Nt mod sh) / sh, rounded up, formed without exceeding 2^31 for n in the thousands
+             lowpart == (k * ((Nt % sh) \div 4096 + 1)) \div (sh \div 4096)
+         IN  1 + k * (Nt \div sh) + lowpart
 
 PowClosedForm(x, y, P, T, prec, r) ==
     LET Nt == PowSum(x, y, P) * Pow2(T)
@@ -171,7 +173,7 @@ DistFirstFail(e) ==
 MismatchOK(e) == Len(e.x) # Len(e.y) => e.status = "panic"
 
 (***************************************************************************)
-(* Mahalanobis.  Sigma integer symmetric of order n <= 3.                  *)
+(* Mahalanobis.  Sigma integer symmetric of order n <= 5.                  *)
 (*     d^2 = z^T Sigma^-1 z = (z^T adj(Sigma) z) / det(Sigma),  z = x - y  *)
 (* Built from m data rows D: Sigma = G / (m (m-1)) with the integer matrix *)
 (*     G[i][j] = m * Sum_k D[k][i] D[k][j] - (Sum_k D[k][i]) (Sum_k D[k][j])*)
@@ -181,23 +183,24 @@ MismatchOK(e) == Len(e.x) # Len(e.y) => e.status = "panic"
 (* on Sigma resp. G; other inputs are outside the statement (unconstrained).*)
 (***************************************************************************)
 Order(M) == Len(M)
-Det(M) ==
-    CASE Order(M) = 1 -> M[1][1]
-      [] Order(M) = 2 -> M[1][1] * M[2][2] - M[1][2] * M[2][1]
-      [] Order(M) = 3 -> M[1][1] * (M[2][2] * M[3][3] - M[2][3] * M[3][2])
-                       - M[1][2] * (M[2][1] * M[3][3] - M[2][3] * M[3][1])
-                       + M[1][3] * (M[2][1] * M[3][2] - M[2][2] * M[3][1])
-(* minor of a 3x3 matrix with row i and column j removed *)
-Others(i) == CASE i = 1 -> <<2, 3>> [] i = 2 -> <<1, 3>> [] i = 3 -> <<1, 2>>
-Minor3(M, i, j) == LET r == Others(i) c == Others(j)
-                   IN  M[r[1]][c[1]] * M[r[2]][c[2]] - M[r[1]][c[2]] * M[r[2]][c[1]]
 Sign(k) == IF k % 2 = 0 THEN 1 ELSE -1
+(* M without row i and column j *)
+SubMatrix(M, i, j) ==
+    [r \in 1..(Len(M) - 1) |-> [c \in 1..(Len(M) - 1) |->
+        M[IF r < i THEN r ELSE r + 1][IF c < j THEN c ELSE c + 1]]]
+(* TLC evaluates [i \in S |-> e] lazily, on every application; TLCEval turns a matrix into an
+   explicit value so that each entry is computed once (a performance device only) *)
+EvalMat(M) == TLCEval([i \in 1..Len(M) |-> TLCEval([j \in 1..Len(M[i]) |-> M[i][j]])])
+RECURSIVE Det(_)
+Det(M) ==    \* cofactor expansion along the first row (orders 1..5 are used)
+    IF Order(M) = 1 THEN M[1][1]
+    ELSE IF Order(M) = 2 THEN M[1][1] * M[2][2] - M[1][2] * M[2][1]
+    ELSE SumUpTo([j \in 1..Order(M) |-> Sign(1 + j) * M[1][j] * Det(SubMatrix(M, 1, j))], Order(M))
 Adj(M) ==    \* adjugate: Adj[i][j] = cofactor(j, i)
-    CASE Order(M) = 1 -> << <<1>> >>
-      [] Order(M) = 2 -> << <<M[2][2], -M[1][2]>>, <<-M[2][1], M[1][1]>> >>
-      [] Order(M) = 3 -> [i \in 1..3 |-> [j \in 1..3 |-> Sign(i + j) * Minor3(M, j, i)]]
+    IF Order(M) = 1 THEN << <<1>> >>
+    ELSE EvalMat([i \in 1..Order(M) |-> [j \in 1..Order(M) |-> Sign(i + j) * Det(SubMatrix(M, j, i))]])
 LeadMinor(M, k) == Det([i \in 1..k |-> [j \in 1..k |-> M[i][j]]])
-IsSquare(M) == Order(M) \in 1..3 /\ \A i \in 1..Order(M) : Len(M[i]) = Order(M)
+IsSquare(M) == Order(M) \in 1..5 /\ \A i \in 1..Order(M) : Len(M[i]) = Order(M)
 IsSPD(M) == /\ IsSquare(M)
             /\ \A i, j \in 1..Order(M) : M[i][j] = M[j][i]
             /\ \A k \in 1..Order(M) : LeadMinor(M, k) > 0
@@ -209,31 +212,43 @@ Gram(D) ==   \* the integer matrix G above; D a sequence of m rows of equal leng
     LET m == Len(D)
         n == Len(D[1])
         s == [i \in 1..n |-> SumUpTo([k \in 1..m |-> D[k][i]], m)]
-    IN  [i \in 1..n |-> [j \in 1..n |->
-            m * SumUpTo([k \in 1..m |-> D[k][i] * D[k][j]], m) - s[i] * s[j]]]
-
-(* the matrix that plays Sigma, and the scalar c with d^2 = c * Quad(adj, z) / det *)
-MahaMatrix(mode, mat) == IF mode = "cov" THEN mat ELSE Gram(mat)
-MahaFactor(mode, mat) == IF mode = "cov" THEN 1 ELSE Len(mat) * (Len(mat) - 1)
-MahaConstrained(mode, mat) ==
-    IF mode = "cov" THEN IsSPD(mat)
-    ELSE Len(mat) >= 2 /\ Len(mat[1]) \in 1..3 /\ IsSPD(Gram(mat))
+    IN  EvalMat([i \in 1..n |-> [j \in 1..n |->
+            m * SumUpTo([k \in 1..m |-> D[k][i] * D[k][j]], m) - s[i] * s[j]]])
 
 RECURSIVE Gcd(_, _)
 Gcd(a, b) == IF b = 0 THEN a ELSE Gcd(b, a % b)
+RECURSIVE GcdUpTo(_, _)
+GcdUpTo(f, n) == IF n = 0 THEN 0 ELSE Gcd(Abs(f[n]), GcdUpTo(f, n - 1))
+MatGcd(M) == GcdUpTo([i \in 1..Len(M) |-> GcdUpTo(M[i], Len(M[i]))], Len(M))
+MatDiv(M, g) == EvalMat([i \in 1..Len(M) |-> [j \in 1..Len(M[i]) |-> M[i][j] \div g]])
 
-(* exact d^2 as a reduced fraction <<num, den>>, den > 0 *)
-MahaSq(M, c, x, y) ==
+(* The matrix that plays Sigma and the rational factor c = <<cn, cd>> with
+      d^2 = (cn / cd) * Quad(adj(M), z) / det(M).
+   For data, G is divided by the gcd g of its entries (adj and det are homogeneous: the
+   factor becomes m (m-1) / g); balanced designs have large common factors and the reduced
+   matrix keeps determinants of order 4 and 5 inside the integer range. *)
+GramGcd(mat) == LET g == MatGcd(Gram(mat)) IN IF g = 0 THEN 1 ELSE g
+GramReduced(G) == LET g == MatGcd(G) IN MatDiv(G, IF g = 0 THEN 1 ELSE g)
+MahaMatrix(mode, mat) == IF mode = "cov" THEN mat ELSE GramReduced(Gram(mat))
+MahaFactor(mode, mat) == IF mode = "cov" THEN <<1, 1>> ELSE <<Len(mat) * (Len(mat) - 1), GramGcd(mat)>>
+MahaConstrained(mode, mat) ==
+    IF mode = "cov" THEN IsSPD(mat)
+    ELSE Len(mat) >= 2 /\ Len(mat[1]) \in 1..5 /\ IsSPD(MahaMatrix(mode, mat))
+
+(* exact d^2 as a reduced fraction <<num, den>>, den > 0; Ad = adj(M), De = det(M) > 0 *)
+MahaSqA(Ad, De, c, x, y) ==
     LET z == [i \in 1..Len(x) |-> x[i] - y[i]]
-        nu == c * Quad(Adj(M), z)
-        de == Det(M)
+        nu == c[1] * Quad(Ad, z)
+        de == c[2] * De
         g == Gcd(Max2(nu, 1), de)
     IN  <<nu \div g, de \div g>>
+MahaSq(M, c, x, y) == MahaSqA(Adj(M), Det(M), c, x, y)
 
 (* bound on the 1-norm condition number of M: |M|_1 |adj M|_1 / det + 1 *)
 ColSum(A, j) == SumUpTo([i \in 1..Len(A) |-> Abs(A[i][j])], Len(A))
 Norm1(A) == MaxUpTo([j \in 1..Len(A) |-> ColSum(A, j)], Len(A))
-CondBound(M) == SatMul(Norm1(M), Norm1(Adj(M))) \div Det(M) + 1
+CondBoundA(M, Ad, De) == SatMul(Norm1(M), Norm1(Ad)) \div De + 1
+CondBound(M) == CondBoundA(M, Adj(M), Det(M))
 
 (***************************************************************************)
 (* Closed form for r.pw = round(d^2 * 2^T) against num/den:                *)
@@ -246,8 +261,10 @@ CondBound(M) == SatMul(Norm1(M), Norm1(Adj(M))) \div Det(M) + 1
 (* also covers the rounding of the covariance estimate, <= n m eps cond).   *)
 (* Result "skip" when the integers do not fit 2^30 or the allowance would   *)
 (* exceed them: the event is then unconstrained (counted, never a pass).    *)
+(* Adjugate, determinant and K are computed once per event and passed down. *)
 (***************************************************************************)
-MahaK(M, n) == LET cb == CondBound(M) IN SatMul(16 * n, SatMul(cb, cb))
+MahaKA(cb, n) == SatMul(16 * n, SatMul(cb, cb))
+MahaK(M, n) == MahaKA(CondBound(M), n)
 
 (* K * a * 2^-prec rounded up, or -1 when it cannot be formed below 2^30 *)
 RelSlack(a, K, prec) ==
@@ -256,22 +273,23 @@ RelSlack(a, K, prec) ==
     IN  IF a > Cap \/ K > Cap \/ SatMul(K, a \div sh1 + 1) > Cap THEN -1
         ELSE (K * (a \div sh1 + 1)) \div sh2 + 1
 
-MahaVerdict(M, c, T, prec, x, y, r) ==
-    LET q == MahaSq(M, c, x, y)
+MahaVerdictA(Ad, De, K, c, T, prec, x, y, r) ==
+    LET q == MahaSqA(Ad, De, c, x, y)
         numT == SatMul(q[1], Pow2(T))
-        rel == RelSlack(numT, MahaK(M, Len(x)), prec)
+        rel == RelSlack(numT, K, prec)
     IN  IF rel < 0 \/ q[2] > Cap \div 4 THEN "skip"
         ELSE IF /\ r.ok /\ r.pw >= 0
                 /\ r.pw <= (Cap + Cap \div 2) \div q[2]
                 /\ Abs(r.pw * q[2] - numT) <= q[2] + rel
              THEN "ok" ELSE "bad"
+MahaVerdict(M, c, T, prec, x, y, r) ==
+    MahaVerdictA(Adj(M), Det(M), MahaK(M, Len(x)), c, T, prec, x, y, r)
 
 (***************************************************************************)
 (* Verdict on one "Maha" event (fields mode, mat, prec, S, T, x, y, z,     *)
 (* status, xy, yx, xx, yz, xz, alt): "" (all clauses hold), the first      *)
 (* failing clause, or "unconstrained" (covariance not positive definite /  *)
 (* data not of full rank / wrong shapes: the statement says nothing).      *)
-(* `skips` is the set of pairs whose closed form could not be evaluated.   *)
 (***************************************************************************)
 IsIdentity(M) == \A i, j \in 1..Order(M) : M[i][j] = (IF i = j THEN 1 ELSE 0)
 
@@ -281,17 +299,17 @@ MahaShapeOK(e) ==
     /\ \A k \in 1..Len(e.mat) : Len(e.mat[k]) = Len(e.mat[1])
     /\ Len(e.x) = Len(e.mat[1]) /\ Len(e.y) = Len(e.mat[1]) /\ Len(e.z) = Len(e.mat[1])
 
-MahaVerdicts(e, M, c) ==
-    [xy |-> MahaVerdict(M, c, e.T, e.prec, e.x, e.y, e.xy),
-     yx |-> MahaVerdict(M, c, e.T, e.prec, e.y, e.x, e.yx),
-     xx |-> MahaVerdict(M, c, e.T, e.prec, e.x, e.x, e.xx),
-     yz |-> MahaVerdict(M, c, e.T, e.prec, e.y, e.z, e.yz),
-     xz |-> MahaVerdict(M, c, e.T, e.prec, e.x, e.z, e.xz)]
+MahaVerdictsA(e, Ad, De, K, c) ==
+    [xy |-> MahaVerdictA(Ad, De, K, c, e.T, e.prec, e.x, e.y, e.xy),
+     yx |-> MahaVerdictA(Ad, De, K, c, e.T, e.prec, e.y, e.x, e.yx),
+     xx |-> MahaVerdictA(Ad, De, K, c, e.T, e.prec, e.x, e.x, e.xx),
+     yz |-> MahaVerdictA(Ad, De, K, c, e.T, e.prec, e.y, e.z, e.yz),
+     xz |-> MahaVerdictA(Ad, De, K, c, e.T, e.prec, e.x, e.z, e.xz)]
 
-MahaTriSlack(e, M) == RelSlack(e.xy.fx + e.yz.fx + e.xz.fx, MahaK(M, Len(e.x)), e.prec)
-
-MahaFirstFailWith(e, M, v) ==
-    LET n == Len(e.x) IN
+MahaFirstFailWith(e, K, v) ==
+    LET n == Len(e.x)
+        tri == RelSlack(e.xy.fx + e.yz.fx + e.xz.fx, K, e.prec)
+    IN
     IF e.status # "ok" THEN "Returns"
     ELSE IF \E k \in DOMAIN v : v[k] = "bad" THEN "ClosedForm"
     ELSE IF ~(NonNeg(e.xy) /\ NonNeg(e.yx) /\ NonNeg(e.xx) /\ NonNeg(e.yz) /\ NonNeg(e.xz)) THEN "NonNeg"
@@ -302,22 +320,23 @@ MahaFirstFailWith(e, M, v) ==
     ELSE IF ~Symmetric(e.xy, e.yx) THEN "Symmetry"
     \* the fixed-point values of a Mahalanobis distance carry the relative error of the
     \* inverse (same K); where that allowance cannot be formed the clause is skipped
-    ELSE IF MahaTriSlack(e, M) >= 0 /\ ~TriangleS(e.xy, e.yz, e.xz, MahaTriSlack(e, M)) THEN "Triangle"
+    ELSE IF tri >= 0 /\ ~TriangleS(e.xy, e.yz, e.xz, tri) THEN "Triangle"
     ELSE IF e.mode = "cov" /\ IsIdentity(e.mat)
-            /\ ~(e.alt.kind = "euc" /\ AgreeS(e.xy, e.alt, RelSlack(e.xy.fx + e.alt.fx, MahaK(M, n), e.prec))) THEN "IdentityIsEuclidean"
+            /\ ~(e.alt.kind = "euc" /\ AgreeS(e.xy, e.alt, RelSlack(e.xy.fx + e.alt.fx, K, e.prec))) THEN "IdentityIsEuclidean"
     ELSE ""
 
-MahaFirstFail(e) ==
-    IF ~MahaShapeOK(e) THEN "unconstrained"
-    ELSE IF ~MahaConstrained(e.mode, e.mat) THEN "unconstrained"
-    ELSE LET M == MahaMatrix(e.mode, e.mat) c == MahaFactor(e.mode, e.mat)
-         IN  MahaFirstFailWith(e, M, MahaVerdicts(e, M, c))
+(* <<first failing clause or "" or "unconstrained", all five closed forms skipped?>> *)
+MahaJudgeK(e, K, v) == <<MahaFirstFailWith(e, K, v), \A k \in DOMAIN v : v[k] = "skip">>
+MahaJudgeAK(e, Ad, De, c, K) == MahaJudgeK(e, K, MahaVerdictsA(e, Ad, De, K, c))
+MahaJudgeA(e, M, Ad, De, c) == MahaJudgeAK(e, Ad, De, c, MahaKA(CondBoundA(M, Ad, De), Len(e.x)))
+MahaJudgeM(e, M, c) == MahaJudgeA(e, M, Adj(M), Det(M), c)
+MahaJudge(e) ==
+    IF ~MahaShapeOK(e) THEN <<"unconstrained", FALSE>>
+    ELSE IF ~MahaConstrained(e.mode, e.mat) THEN <<"unconstrained", FALSE>>
+    ELSE MahaJudgeM(e, MahaMatrix(e.mode, e.mat), MahaFactor(e.mode, e.mat))
 
-MahaAllSkipped(e) ==
-    /\ MahaShapeOK(e) /\ MahaConstrained(e.mode, e.mat)
-    /\ LET M == MahaMatrix(e.mode, e.mat) c == MahaFactor(e.mode, e.mat)
-           v == MahaVerdicts(e, M, c)
-       IN  \A k \in DOMAIN v : v[k] = "skip"
+MahaFirstFail(e) == MahaJudge(e)[1]
+MahaAllSkipped(e) == MahaJudge(e)[2]
 
 (* a vector whose length differs from the order of a positive-definite covariance is rejected *)
 MahaMismatchOK(e) ==
